@@ -74,30 +74,51 @@ Definition parse_tag (b : bytes) : option (N * N * bytes) :=
   | None => None
   end.
 
+(* inside a skipped group protowire.ConsumeTag only asks for a field number in [1, 2^31-1]
+   (DecodeTag); the 2^29-1 bound of parse_tag is the message-level one (impl.unmarshal) *)
+Definition max_int32 : N := 2147483647.
+Definition parse_tag_g (b : bytes) : option (N * N * bytes) :=
+  match varint_dec b with
+  | Some (t, r) =>
+      let num := t / 8 in
+      if (1 <=? num) && (num <=? max_int32) then Some (num, t mod 8, r) else None
+  | None => None
+  end.
+
+(* protowire.DefaultRecursionLimit: consumeFieldValueD starts a top-level group with depth 10000,
+   every nested group costs one, a group reached with depth < 0 is an error: 10001 nested groups
+   are skipped, 10002 are refused *)
+Definition group_depth : nat := N.to_nat 10000.
+
 (* protowire.ConsumeFieldValue for a group: skip fields until the matching
-   end-group tag; nested groups recurse.  [fuel] bounds the number of tags. *)
-Fixpoint skip_group (fuel : nat) (gnum : N) (b : bytes) : option bytes :=
+   end-group tag; nested groups recurse.  [fuel] bounds the number of tags, [d] is the number of
+   further nesting levels allowed below this group. *)
+Fixpoint skip_group (fuel : nat) (d : nat) (gnum : N) (b : bytes) : option bytes :=
   match fuel with
   | O => None
   | S f =>
-      match parse_tag b with
+      match parse_tag_g b with
       | None => None
       | Some (num, wt, r) =>
           if wt =? 4 then (if num =? gnum then Some r else None)
           else if wt =? 0 then
-            match varint_dec r with Some (_, r') => skip_group f gnum r' | None => None end
+            match varint_dec r with Some (_, r') => skip_group f d gnum r' | None => None end
           else if wt =? 1 then
-            match take_n 8 r with Some (_, r') => skip_group f gnum r' | None => None end
+            match take_n 8 r with Some (_, r') => skip_group f d gnum r' | None => None end
           else if wt =? 5 then
-            match take_n 4 r with Some (_, r') => skip_group f gnum r' | None => None end
+            match take_n 4 r with Some (_, r') => skip_group f d gnum r' | None => None end
           else if wt =? 2 then
             match varint_dec r with
             | Some (l, r') =>
-                match take_len l r' with Some (_, r'') => skip_group f gnum r'' | None => None end
+                match take_len l r' with Some (_, r'') => skip_group f d gnum r'' | None => None end
             | None => None
             end
           else if wt =? 3 then
-            match skip_group f num r with Some r' => skip_group f gnum r' | None => None end
+            match d with
+            | O => None
+            | S d' =>
+              match skip_group f d' num r with Some r' => skip_group f d gnum r' | None => None end
+            end
           else None
       end
   end.
@@ -119,7 +140,7 @@ Definition parse_one (b : bytes) : option (rfield * bytes) :=
       else if wt =? 5 then
         match take_n 4 r with Some (_, r') => Some ((num, RSkip), r') | None => None end
       else if wt =? 3 then
-        match skip_group (length r) num r with Some r' => Some ((num, RSkip), r') | None => None end
+        match skip_group (length r) group_depth num r with Some r' => Some ((num, RSkip), r') | None => None end
       else None  (* a stray end-group, or reserved wire types 6 and 7 *)
   end.
 
